@@ -57,7 +57,8 @@ Inductive err :=
 | ENoClient        (* storage.GetClientByClientID failed *)
 | EMethod          (* invalid_client: client is not registered for private_key_jwt *)
 | ENoCred          (* op.ErrNoClientCredentials *)
-| EInvalidRequest. (* invalid_request without a parent error *)
+| EInvalidRequest  (* invalid_request without a parent error *)
+| EPanicked.       (* the call did not return: nil func call (JWTProfileVerifier.CheckSubject == nil) *)
 
 Inductive res (A : Type) := Ok (a : A) | Err (e : err).
 Arguments Ok {A} a.
